@@ -650,7 +650,7 @@ def run(ck: core.Check):
     tasks += [(ck.seed, 3 * 10**6 + i, "cf") for i in range(n_cf)]
     n_fh = len(FH.HAND_CASES) + pick(120, 1500)
     tasks += [(ck.seed, 4 * 10**6 + i, "fhist") for i in range(n_fh)]
-    results = L.robust_map(case_worker, tasks, min(14, mp.cpu_count()), core.WORK)
+    results = L.robust_map(case_worker, tasks, min(14, mp.cpu_count()), core.WORK, stall_timeout=900)
     rng = ck.rng
     def hand(hs):
         r = {"mode": "collect", "spec": hs, "stats": L.spec_stats(hs)}
@@ -669,7 +669,9 @@ def run(ck: core.Check):
         except Exception as e:  # noqa: BLE001
             results.append({"crash": f"hand spec: {e}", "status": "crash", "spec": None, "mode": "collect"})
     died = [i for i, r in enumerate(results[:len(tasks)]) if r.get("died")]
-    for i in died:  # native judges run in children of the worker: this worker was killed inside build or stalled
+    for i in died:  # native judges run in children of the worker: this worker was killed inside build
+        if "exit code -9" in str(results[i].get("crash")):
+            continue  # killed by the pool for not answering within 15 min (overloaded machine): no verdict
         ck.failure("process-aborted", f"the process handling generated case {list(tasks[i])} died or stalled "
                                       "(native crash inside build?)", {"task": list(tasks[i])})
     crashes = [r for r in results if r.get("crash") and not r.get("died")]
